@@ -8,8 +8,8 @@
 #include <string>
 using Q = tbb::concurrent_priority_queue<int>;
 static bool one(std::mt19937& rng, std::string& why) {
-    Q q; std::vector<int> model;
-    int n0 = rng() % 9; for (int i = 0; i < n0; ++i) { int v = rng() % 100; q.push(v); model.push_back(v); }
+    Q q; std::vector<int> model, initial;
+    int n0 = rng() % 9; for (int i = 0; i < n0; ++i) { int v = rng() % 100; q.push(v); model.push_back(v); initial.push_back(v); }
     int nops = 1 + rng() % 4;
     std::vector<int> vals(nops); std::vector<Q::cpq_operation*> ops; std::string desc;
     for (int i = 0; i < nops; ++i) {
@@ -22,6 +22,13 @@ static bool one(std::mt19937& rng, std::string& why) {
     for (int i = 0; i < nops; ++i) if (ops[i]->type == Q::PUSH_OP) model.push_back(vals[i]);   // operations of one batch are mutually concurrent
     for (int i = 0; i < nops; ++i) {
         if (ops[i]->type == Q::POP_OP && ops[i]->status.load() == Q::SUCCEEDED) { auto it = std::find(model.begin(), model.end(), vals[i]); if (it == model.end()) { why = "batch" + desc + ": a pop returned " + std::to_string(vals[i]) + ", which was never in the queue"; return true; } model.erase(it); }
+    }
+    {   // a pop may not return less than an element that was queued before the batch and is still queued afterwards
+        std::vector<int> pushed, rem = initial, pops;
+        for (int i = 0; i < nops; ++i) { if (ops[i]->type == Q::PUSH_OP) pushed.push_back(vals[i]); else if (ops[i]->status.load() == Q::SUCCEEDED) pops.push_back(vals[i]); }
+        for (int pv : pops) { auto it = std::find(pushed.begin(), pushed.end(), pv); if (it != pushed.end()) { pushed.erase(it); continue; } it = std::find(rem.begin(), rem.end(), pv); if (it != rem.end()) rem.erase(it); }
+        if (!rem.empty()) { int mx = *std::max_element(rem.begin(), rem.end());
+            for (int pv : pops) if (pv < mx) { why = "queue holding"; for (int x : initial) why += " " + std::to_string(x); why += ", one aggregated batch" + desc + ": a pop returned " + std::to_string(pv) + " while " + std::to_string(mx) + ", queued before the batch, is still in the queue"; return true; } }
     }
     std::vector<int> drained; int v; while (q.try_pop(v)) drained.push_back(v);
     std::sort(model.begin(), model.end(), std::greater<int>());
